@@ -16,10 +16,26 @@ package sorted_set
 
 import (
 	"errors"
+	"math"
 	"slices"
 	"strconv"
 	"strings"
 )
+
+// parseScore parses a score argument: a float64, "-inf" or "+inf". NaN is not a score.
+func parseScore(s string) (Score, error) {
+	switch strings.ToLower(s) {
+	case "-inf":
+		return Score(math.Inf(-1)), nil
+	case "+inf":
+		return Score(math.Inf(1)), nil
+	}
+	f, err := strconv.ParseFloat(s, 64)
+	if err != nil || math.IsNaN(f) {
+		return 0, errors.New("score must be a double")
+	}
+	return Score(f), nil
+}
 
 func extractKeysWeightsAggregateWithScores(cmd []string) ([]string, []int, string, bool, error) {
 	var weights []int
